@@ -112,7 +112,7 @@ pub fn property() -> Property {
             ],
         },
         hang_is_violation: false,
-        hang_limit_s: 0,
+        hang_limit_s: 900,
         probes: vec![],
     }
 }
